@@ -13,6 +13,11 @@ CHECKS = {
   note="Trusted: go/ssa, crypto/md5 semantics, the VTA call graph for the who-may-call rule.",
   tech="static analysis: dominator/branch-fact rules, call-graph who-may-call, hash-input shape and parameter-chain provenance on go/ssa",
   ref="DESIGN.md §2 C15"),
+ "C11": dict(
+  text="The transition relation of the LCP, IPCP and IPv6CP automata is extracted from the source by a finite-domain disjunctive dataflow analysis (property simulation: automaton state x guard atoms x actions; same-receiver calls summarised) for every (entry point, pre-state) pair and checked, exhaustively over the extracted relation, against the invariants the property states: Opened entered only on mutual acknowledgement, every renegotiation/terminate/down event leaves Opened, both acknowledgements are fresh (a re-sent request or a Nak'd request cannot coexist with a state asserting the acknowledgement), stale identifiers have no effect, replies echo the request identifier, option lists repeat received options unchanged, restart-counter discipline, dispatch table, sibling agreement. Timer-versus-packet races and option byte contents are not decided.",
+  note="Trusted: go/ssa; the over-approximation treats unknown conditions as both-ways and callbacks (onStateChange, sendPacket) as not re-entering the automaton.",
+  tech="static analysis: finite-domain disjunctive dataflow (property simulation) over go/ssa extracting the FSM transition relation; dominance/provenance rules for option lists",
+  ref="DESIGN.md §2 C11, §1.3 E4"),
 }
 NA = {}
 def main():
